@@ -30,6 +30,14 @@
 
 #define MRB_BUFFER_SIZE (64 * 1024 * 1024)
 
+#ifdef JLS_VERIF
+// Verification hook (off by default): let a test harness shrink the message queue so
+// that wrap-around, empty-reset and overflow are reached.  Not part of the API.
+uint32_t jls_verif_mrb_buffer_size = MRB_BUFFER_SIZE;
+#undef MRB_BUFFER_SIZE
+#define MRB_BUFFER_SIZE (jls_verif_mrb_buffer_size)
+#endif
+
 
 struct jls_twr_s {
     struct jls_bkt_s * bk;  // REQUIRED first entry
